@@ -54,6 +54,7 @@ class _TextCueParser:
 
   def __init__(self, paragraph: model.P, line_number: int) -> None:
     self.line_num: int = line_number
+    self.paragraph: model.P = paragraph
     self.parent: model.ContentElement = paragraph
 
     # handle the special case of ruby elements where children cannot be added one by one
@@ -187,6 +188,12 @@ class _TextCueParser:
 
     # the end tag closes the element that was open when the timestamp tag was met, not the timestamp span
     reopen_ts_span = self._close_ts_span()
+
+    if self.parent is self.paragraph:
+      LOGGER.warning("Unexpected end tag at line %s", self.line_num)
+      if reopen_ts_span:
+        self._open_ts_span()
+      return
 
     if isinstance(self.parent, model.Rt) and _token.tag.strip().lower() == "ruby":
       # the last </rt> of a ruby element may be omitted: </ruby> ends the ruby text too
@@ -575,6 +582,8 @@ def to_model(data_file: typing.IO, _config = None, progress_callback=lambda _: N
       # handle settings
 
       current_p.set_region(_get_or_make_region(doc, cue_params[3:]))
+
+      subtitle_text = ""
 
       state = _State.TEXT
 
